@@ -319,6 +319,11 @@ def run(ck: Check):
     ]
     if not pickles and not ck.violations and not ck.known_hits:
         raise MachineryError("no behaviour reached Pickle")
+    # ---- specification growth (outside C20 as stated): execution status automaton, observers and
+    # execution statistics of monitored processes (ExecStatus*.tla)
+    from ..growth import g01_exec_status
+
+    g01_exec_status.run(ck)
 
 
 if __name__ == "__main__":
